@@ -25,6 +25,13 @@
 #   include <cds/container/feldman_hashset_hp.h>
 #   include <cds/container/feldman_hashset_dhp.h>
 #   include <cds/container/feldman_hashset_rcu.h>
+#elif FAMILY == 5
+#   include "intrusive.h"
+#   include <cds/intrusive/michael_list_hp.h>
+#   include <cds/intrusive/michael_set.h>
+#   include <cds/intrusive/split_list.h>
+#   include <cds/intrusive/feldman_hashset_hp.h>
+#   include <cds/intrusive/feldman_hashset_rcu.h>
 #endif
 
 using namespace vh;
@@ -51,6 +58,8 @@ void family( std::string const& tname, std::vector<int> keys, int step, int bq =
     std::vector<Program> cur = set_curated( true, true, { 0, keys[0], keys[1], keys[2] } );
     for ( auto const& p : cur )
         g_scen.push_back( make_scenario<A>( base, p, SetCfg( int( p.threads.size()), universe ), step <= 8 ? 0 : 1, p.threads.size() > 2 ? 2 : bq, p.threads.size() > 2 ? 2 : bt ));
+    if ( Caps::has_unlink::value )
+        add_unlink_programs<A>( g_scen, base, { 0, keys[0], keys[1], keys[2] }, universe, step, bq, bt );
 }
 
 // growth programs: the insert that makes the table grow (or a slot expand) races with operations on keys whose bucket is not
@@ -143,6 +152,38 @@ template <> inline fh_rcu* make_set<fh_rcu>( SetCfg const& ) { return new fh_rcu
 }
 #endif
 
+#if FAMILY == 5
+namespace {
+namespace ci = cds::intrusive;
+typedef node_disposer<prop> disp;
+struct caps_ih: caps_hash { typedef std::true_type has_unlink; typedef std::false_type has_emplace; };
+struct caps_ih_repl: caps_ih { typedef std::true_type update_replaces; };
+struct caps_ih_rcu_repl: caps_hash_rcu_repl { typedef std::true_type has_unlink; typedef std::false_type has_emplace; };
+// MichaelHashSet over the intrusive MichaelList
+typedef INode< ci::michael_list::node<cds::gc::HP> > mnode;
+struct mltr: public ci::michael_list::traits { typedef ci::michael_list::base_hook< cds::opt::gc<cds::gc::HP> > hook; typedef disp disposer; typedef item_less less; };
+struct mstr: public ci::michael_set::traits { typedef item_hash<2> hash; typedef cds::atomicity::item_counter item_counter; };
+typedef IWrap< ci::MichaelHashSet<cds::gc::HP, ci::MichaelList<cds::gc::HP, mnode, mltr>, mstr> > imhs;
+// SplitListSet over the intrusive MichaelList
+typedef INode< ci::split_list::node< ci::michael_list::node<cds::gc::HP> > > snode;
+struct sltr: public ci::michael_list::traits { typedef ci::michael_list::base_hook< cds::opt::gc<cds::gc::HP> > hook; typedef disp disposer; typedef item_less less; };
+struct sstr: public ci::split_list::traits { typedef item_hash_id hash; typedef cds::atomicity::item_counter item_counter; };
+typedef IWrap< ci::SplitListSet<cds::gc::HP, ci::MichaelList<cds::gc::HP, snode, sltr>, sstr> > isls;
+// FeldmanHashSet
+struct key_of { int const& operator()( Item const& i ) const { return i.key; } };
+typedef INode< no_hook > fnode;
+struct fhtr: public ci::feldman_hashset::traits { typedef key_of hash_accessor; typedef disp disposer; typedef cds::atomicity::item_counter item_counter; };
+typedef IWrap< ci::FeldmanHashSet<cds::gc::HP, fnode, fhtr>, true > ifh_hp;
+typedef IWrap< ci::FeldmanHashSet<rcu_gpb, fnode, fhtr>, true > ifh_rcu;
+}
+namespace vh {
+template <> inline imhs* make_set<imhs>( SetCfg const& ) { return new imhs( 2, 1 ); }
+template <> inline isls* make_set<isls>( SetCfg const& ) { return new isls( 8, 1 ); }
+template <> inline ifh_hp* make_set<ifh_hp>( SetCfg const& ) { return new ifh_hp( 4, 2 ); }
+template <> inline ifh_rcu* make_set<ifh_rcu>( SetCfg const& ) { return new ifh_rcu( 4, 2 ); }
+}
+#endif
+
 int main( int argc, char** argv )
 {
     vh::take_property( argc, argv, "C14" );
@@ -175,6 +216,13 @@ int main( int argc, char** argv )
     growth<fh_dhp, DhpHolder, caps_hash_repl>( "FeldmanHashSet", { 1, 2, 17, 65, 257, 33 }, 1, 2 );
     family<fh_rcu, GpbHolder, caps_hash_rcu_repl>( "FeldmanHashSet", { 1, 17, 65 }, 16 );
     growth<fh_rcu, GpbHolder, caps_hash_rcu_repl>( "FeldmanHashSet", { 1, 2, 17, 65, 257, 33 }, 2, 3 );
+#elif FAMILY == 5
+    family<imhs, HpHolder<8>, caps_ih>( "intrusive-MichaelHashSet-MichaelList", { 1, 3, 2 }, 8 );
+    family<isls, HpHolder<8>, caps_ih>( "intrusive-SplitListSet-MichaelList", { 1, 3, 2 }, 12 );
+    growth<isls, HpHolder<8>, caps_ih>( "intrusive-SplitListSet-MichaelList", { 1, 2, 3, 7, 5, 6 }, 1, 2 );
+    family<ifh_hp, HpHolder<8>, caps_ih_repl>( "intrusive-FeldmanHashSet", { 1, 17, 65 }, 8 );
+    growth<ifh_hp, HpHolder<8>, caps_ih_repl>( "intrusive-FeldmanHashSet", { 1, 2, 17, 65, 257, 33 }, 1, 2 );
+    family<ifh_rcu, GpbHolder, caps_ih_rcu_repl>( "intrusive-FeldmanHashSet", { 1, 17, 65 }, 16 );
 #endif
 
     Options o; o.property = vh::property().c_str();
